@@ -367,8 +367,6 @@ def case_cadence(c):
     t_starts = [float(f.t_start) for f in frames]
     if cad['over']:
         slew = cad['slew']
-        if t_starts[0] != cad['starts'][0]:
-            V('Cadence.overwrite_times', 'first_start_changed', 't_start[0]=%r was %r' % (t_starts[0], cad['starts'][0]))
         for m in range(1, M):
             want_same = frames[m - 1].t_stop + slew
             exact = F(t_starts[m - 1]) + tcs[m - 1] * F(dt) + F(slew)
@@ -382,16 +380,6 @@ def case_cadence(c):
             for m in range(1, M):
                 if abs(F(st[m - 1]) - F(slew)) > 2 * F(ulp(max(abs(t_starts[m]), abs(slew), dt))):
                     V('Cadence.slew_times', 'value', 'slew_times[%d]=%r, slew=%r' % (m - 1, st[m - 1], slew))
-        for m in range(M):
-            if not _same_ts(frames[m].ts, ts0[m]):
-                V('Cadence.overwrite_times', 'ts_changed', 'frame %d ts changed by overwrite_times' % m)
-    else:
-        st = np.asarray(parent.slew_times)
-        for m in range(1, M):
-            exact = F(t_starts[m]) - F(t_starts[m - 1]) - tcs[m - 1] * F(dt)
-            if st.shape != (M - 1,) or abs(F(st[m - 1]) - exact) > 2 * F(ulp(max(abs(t_starts[m]), abs(t_starts[m - 1]), dt))):
-                V('Cadence.slew_times', 'value', 'slew_times=%r, exact gap %d is %r' % (st, m, float(exact)))
-                break
     outcomes.add('view/%s/%d-of-%d' % (c['view'], len(members), M))
 
     res = {'viol': viol}
@@ -400,8 +388,9 @@ def case_cadence(c):
         W = None
         try:
             view.add_signal(100.0, 1.0, stg.gaussian_f_profile(width=2.0), **kw)
-        except Exception as e:
-            V('Cadence.add_signal', 'raised', 'empty cadence: %s: %s' % (type(e).__name__, e))
+            outcomes.add('empty/ok')
+        except Exception as e:     # the statement does not say what an empty cadence does; only the frames are checked
+            outcomes.add('empty/%s' % type(e).__name__)
         for m in range(M):
             extra['ts_checks'] += 1
             if not _same_ts(frames[m].ts, ts0[m]):
